@@ -17,7 +17,8 @@ RULE = ("case = (transport, keep-alive, timeout, retries, prefix of request outc
         "probe). All prefixes of length <= 2 over the outcome classes are enumerated for a grid of configurations, "
         "longer prefixes are sampled by Hypothesis; entry points are run for every (timeout, retries) of a grid. "
         "Non-trivial = prefix contains at least one non-success step (or the case is an entry-point case); distinct by "
-        "(configuration, prefix, probe).")
+        "(configuration, prefix, probe). Histories run on a bare protocol object or (flag api) through an inverter object; "
+        "probes: silent, answered on the k-th retransmission, one slow / fragmented / short valid answer, pairs of invalid datagrams.")
 ASSUMPTIONS = [
     "virtual-clock loop and in-memory transports model the asyncio callback contract (vlib/vloop.py)",
     "the probe request is issued either immediately after the prefix or after all pending timers have run (both generated)",
@@ -119,7 +120,7 @@ def check_history(acc: Acc, case):
     full = dict(case)
     full["steps"] = steps
     if any(p not in ("success", "success_late_in_time") for p in prefix):
-        acc.nontrivial(transport, case.get("keep"), T, R, tuple(prefix), case.get("gap", 0), k)
+        acc.nontrivial(transport, case.get("keep"), T, R, tuple(prefix), case.get("gap", 0), k, case.get("api", False))
     results, world, errors, protocol = netcase.run_sequence(full)
     fails = []
     probe = results[-1]
@@ -196,6 +197,8 @@ def enum_job(job):
                 case = {"transport": transport, "keep": keep, "T": T, "R": R, "prefix": list(prefix), "gap": gap,
                         "k": k, "latency": 0}
                 _apply(acc, case)
+                if n < 2:
+                    _apply(acc, dict(case, api=True))   # the same history through an inverter object
                 if n == 2 and len(acc.samples) < 1 and prefix[0] == "exhausted":
                     acc.sample(case)
     return acc
@@ -217,7 +220,7 @@ def hyp_job(job):
                 "k": draw(st.one_of(st.none(), st.integers(0, R), st.integers(0, 15).map(lambda d: "slow:%d" % d), st.just("short"),
                                     st.tuples(st.integers(0, 15), st.integers(0, 15)).map(lambda t: "noisy:%d:%d" % (min(t), max(t))),
                                     st.tuples(st.integers(0, 15), st.integers(0, 15)).map(lambda t: "fragslow:%d:%d" % (min(t), max(t))))),
-                "latency": draw(st.integers(0, 3))}
+                "latency": draw(st.integers(0, 3)), "api": draw(st.booleans())}
 
     def body(case):
         for p in case["prefix"]:
